@@ -66,6 +66,10 @@ func TestC02_ManyMessages(t *testing.T) {
 		msgs := make([]c02Msg, m)
 		for i := range msgs {
 			mm := g.Bytes(fmt.Sprintf("msg%d", i), 0, 40)
+			if i > 0 && g.Chance("sameMessageOtherHasher", 1, 4) {
+				mm = msgs[g.Pick("sameMessageAs", i)].m // the same message bytes under another hasher / tag
+				g.Class("sameMessageDifferentHasher")
+			}
 			h, d := drawHasher(g, fmt.Sprintf("h%d", i))
 			msgs[i] = c02Msg{m: mm, h: h, H: hashToG1(g, mm, h), d: d}
 		}
@@ -147,7 +151,7 @@ func TestC02_ManyMessages(t *testing.T) {
 		idPos := 0
 		if injectIdentity {
 			idPos = g.Pick("identityPos", n)
-			pks[idPos] = identityKeys(g, blsKey{x: xs[0], pk: decodeSK(g, xs[0]).PublicKey()})[g.Pick("identityKind", 3)]
+			pks[idPos] = identityKeys(g, blsKey{x: xs[0], pk: decodeSK(g, xs[0]).PublicKey()})[g.Pick("identityKind", 4)]
 			g.Class("identityKeyInList")
 		}
 		for _, c := range cands {
